@@ -47,6 +47,62 @@ theorem reducer_eq_foldFirst {α : Type} (op : α → α → α) (init : Option 
 
 
 
+theorem flattenReduce_eq {α : Type} (ident : Option α) (op : α → α → α) (init : Option α) (n : Nat) (elem : Nat → α) :
+    flattenReduce ident op init n elem = foldNumpy ident op init ((List.range n).map elem) := by
+  unfold flattenReduce
+  cases n with
+  | zero => simp [foldNumpy, emptyFold]
+  | succ m =>
+    rw [if_neg (by omega), reducer_eq_foldFirst]
+    have : List.range (m+1) = 0 :: List.range' 1 m := by
+      rw [List.range_eq_range', List.range'_succ]
+    rw [this]; rfl
+
+theorem foldNumpy_of_ne_nil {α : Type} (ident : Option α) (op : α → α → α) (init : Option α) {l : List α} (h : l ≠ []) :
+    foldNumpy ident op init l = foldFirst op init l := by
+  cases l with
+  | nil => exact absurd rfl h
+  | cons x xs => rfl
+
+theorem foldNumpy_nil {α : Type} (ident : Option α) (op : α → α → α) (init : Option α) :
+    foldNumpy ident op init [] = emptyFold ident init := rfl
+
+/-- positivity of the extents on the reduced positions only (`p` = `in_axis`, positions counted from `i`) -/
+def PosOn (p : Nat → Bool) : Nat → Shape → Prop
+  | _, [] => True
+  | i, a :: t => (p i = true → 0 < a) ∧ PosOn p (i+1) t
+
+theorem PosOn_of_pos (p : Nat → Bool) : ∀ (s : Shape) (i : Nat), Pos s → PosOn p i s := by
+  intro s
+  induction s with
+  | nil => intro _ _; trivial
+  | cons a t ih => intro i hs; exact ⟨fun _ => hs.head, ih (i+1) hs.tail⟩
+
+theorem prod_eq_zero_of_not_pos {s : List Nat} (h : ¬ Pos s) : prod s = 0 := by
+  induction s with
+  | nil => exact absurd (fun x hx => by simp at hx) h
+  | cons a t ih =>
+    simp only [prod]
+    by_cases ha : a = 0
+    · simp [ha]
+    · have : ¬ Pos t := fun ht => h (fun x hx => by
+        simp only [List.mem_cons] at hx
+        rcases hx with rfl | hx
+        · omega
+        · exact ht x hx)
+      simp [ih this]
+
+theorem allIdx_eq_nil_of_not_pos {s : Shape} (h : ¬ Pos s) : allIdx s = [] := by
+  apply List.eq_nil_iff_forall_not_mem.2
+  intro i hi
+  exact h (pos_of_inShape ((Props.C01.mem_allIdx_iff s i).1 hi))
+
+/-- the flat positions of any shape enumerate `allIdx` (both empty when an extent is 0) -/
+theorem map_ndindex_range_all (s : Shape) : (List.range (prod s)).map (ndindex s) = allIdx s := by
+  by_cases hs : Pos s
+  · exact map_ndindex_range s hs
+  · rw [prod_eq_zero_of_not_pos hs, allIdx_eq_nil_of_not_pos hs]; rfl
+
 /-- list-consuming form of `reductionSlicesLoop` -/
 def slicesL (p : Nat → Bool) (keep : Bool) : Nat → Idx → Shape → Option (List (Nat × Nat))
   | _, _, [] => some []
@@ -110,21 +166,21 @@ theorem flatMap_eq_single {β : Type} (f : Nat → List β) (j0 : Nat) :
       rw [hz y (by simp) hy, List.nil_append]
       exact ih hnd.2 hm (fun x hx => hz x (by simp [hx]))
 
-theorem slicesL_box (p : Nat → Bool) (keep : Bool) :
-    ∀ (s : Shape) (i : Nat) (j : Idx), Pos s → InShape j (removeDimsLoop p keep i s) →
-      ∃ sl, slicesL p keep i j s = some sl ∧ Pos (sliceShape sl) ∧
+/-- for any shape (zero extents allowed): the slices exist and their box is the filtered enumeration -/
+theorem slicesL_box_all (p : Nat → Bool) (keep : Bool) :
+    ∀ (s : Shape) (i : Nat) (j : Idx), InShape j (removeDimsLoop p keep i s) →
+      ∃ sl, slicesL p keep i j s = some sl ∧
         boxIdx sl = (allIdx s).filter (fun x => projL p keep i x == j) := by
   intro s
   induction s with
   | nil =>
-    intro i j _ hj
+    intro i j hj
     simp only [removeDimsLoop] at hj
     cases j with
-    | nil => exact ⟨[], rfl, by intro x hx; simp [sliceShape] at hx, by simp [boxIdx, allIdx, List.filter_cons, projL]⟩
+    | nil => exact ⟨[], rfl, by simp [boxIdx, allIdx, List.filter_cons, projL]⟩
     | cons _ _ => simp [InShape] at hj
   | cons a t ih =>
-    intro i j hs hj
-    have ha : 0 < a := hs.head
+    intro i j hj
     by_cases hp : p i = true
     · cases keep with
       | true =>
@@ -135,32 +191,9 @@ theorem slicesL_box (p : Nat → Bool) (keep : Bool) :
           simp only [InShape] at hj
           have hj0 : j0 = 0 := by omega
           subst hj0
-          obtain ⟨sl, h1, h2, h3⟩ := ih (i+1) j' hs.tail hj.2
-          refine ⟨(0, a) :: sl, by simp [slicesL, hp, h1], ?_, ?_⟩
-          · intro x hx
-            simp only [sliceShape, List.map_cons, List.mem_cons] at hx
-            rcases hx with rfl | hx
-            · simpa using ha
-            · exact h2 x hx
-          · simp only [boxIdx, allIdx, Nat.sub_zero]
-            rw [List.filter_flatMap, ← List.range_eq_range']
-            apply flatMap_congr'
-            intro x _
-            rw [List.filter_map, h3]
-            congr 1
-            apply List.filter_congr
-            intro y _
-            simp [projL, hp]
-      | false =>
-        simp only [removeDimsLoop, hp, Bool.not_false, Bool.and_true, if_true] at hj
-        obtain ⟨sl, h1, h2, h3⟩ := ih (i+1) j hs.tail hj
-        refine ⟨(0, a) :: sl, by simp [slicesL, hp, h1], ?_, ?_⟩
-        · intro x hx
-          simp only [sliceShape, List.map_cons, List.mem_cons] at hx
-          rcases hx with rfl | hx
-          · simpa using ha
-          · exact h2 x hx
-        · simp only [boxIdx, allIdx, Nat.sub_zero]
+          obtain ⟨sl, h1, h3⟩ := ih (i+1) j' hj.2
+          refine ⟨(0, a) :: sl, by simp [slicesL, hp, h1], ?_⟩
+          simp only [boxIdx, allIdx, Nat.sub_zero]
           rw [List.filter_flatMap, ← List.range_eq_range']
           apply flatMap_congr'
           intro x _
@@ -169,33 +202,82 @@ theorem slicesL_box (p : Nat → Bool) (keep : Bool) :
           apply List.filter_congr
           intro y _
           simp [projL, hp]
+      | false =>
+        simp only [removeDimsLoop, hp, Bool.not_false, Bool.and_true, if_true] at hj
+        obtain ⟨sl, h1, h3⟩ := ih (i+1) j hj
+        refine ⟨(0, a) :: sl, by simp [slicesL, hp, h1], ?_⟩
+        simp only [boxIdx, allIdx, Nat.sub_zero]
+        rw [List.filter_flatMap, ← List.range_eq_range']
+        apply flatMap_congr'
+        intro x _
+        rw [List.filter_map, h3]
+        congr 1
+        apply List.filter_congr
+        intro y _
+        simp [projL, hp]
     · have hp' : p i = false := by simpa using hp
       simp only [removeDimsLoop, hp', Bool.false_and, Bool.false_eq_true, if_false] at hj
       cases j with
       | nil => simp [InShape] at hj
       | cons j0 j' =>
         simp only [InShape] at hj
-        obtain ⟨sl, h1, h2, h3⟩ := ih (i+1) j' hs.tail hj.2
-        refine ⟨(j0, j0+1) :: sl, by simp [slicesL, hp', h1], ?_, ?_⟩
-        · intro x hx
-          simp only [sliceShape, List.map_cons, List.mem_cons] at hx
-          rcases hx with rfl | hx
-          · simp
-          · exact h2 x hx
-        · simp only [boxIdx, allIdx, Nat.add_sub_cancel_left]
-          rw [List.filter_flatMap]
-          rw [flatMap_eq_single _ j0 (List.range a) List.nodup_range (by simpa using hj.1)]
-          · rw [List.filter_map, h3]
-            simp only [List.range'_one, List.flatMap_cons, List.flatMap_nil, List.append_nil]
-            congr 1
-            apply List.filter_congr
-            intro y _
-            simp [projL, hp']
-          · intro x _ hx
-            rw [List.filter_map]
-            simp only [List.map_eq_nil_iff, List.filter_eq_nil_iff]
-            intro y _
-            simp [projL, hp', hx]
+        obtain ⟨sl, h1, h3⟩ := ih (i+1) j' hj.2
+        refine ⟨(j0, j0+1) :: sl, by simp [slicesL, hp', h1], ?_⟩
+        simp only [boxIdx, allIdx, Nat.add_sub_cancel_left]
+        rw [List.filter_flatMap]
+        rw [flatMap_eq_single _ j0 (List.range a) List.nodup_range (by simpa using hj.1)]
+        · rw [List.filter_map, h3]
+          simp only [List.range'_one, List.flatMap_cons, List.flatMap_nil, List.append_nil]
+          congr 1
+          apply List.filter_congr
+          intro y _
+          simp [projL, hp']
+        · intro x _ hx
+          rw [List.filter_map]
+          simp only [List.map_eq_nil_iff, List.filter_eq_nil_iff]
+          intro y _
+          simp [projL, hp', hx]
+
+/-- the slices have positive extents as soon as the *reduced* extents are positive -/
+theorem slicesL_pos (p : Nat → Bool) (keep : Bool) :
+    ∀ (s : Shape) (i : Nat) (j : Idx) (sl : List (Nat × Nat)), slicesL p keep i j s = some sl → PosOn p i s →
+      Pos (sliceShape sl) := by
+  intro s
+  induction s with
+  | nil =>
+    intro i j sl h _
+    simp only [slicesL, Option.some.injEq] at h
+    subst h
+    intro x hx; simp [sliceShape] at hx
+  | cons a t ih =>
+    intro i j sl h hpos
+    by_cases hp : p i = true
+    · simp only [slicesL, hp, if_true, Option.map_eq_some_iff] at h
+      obtain ⟨sl', h1, rfl⟩ := h
+      intro x hx
+      simp only [sliceShape, List.map_cons, List.mem_cons] at hx
+      rcases hx with rfl | hx
+      · simpa using hpos.1 hp
+      · exact ih (i+1) _ sl' h1 hpos.2 x hx
+    · have hp' : p i = false := by simpa using hp
+      cases j with
+      | nil => simp [slicesL, hp'] at h
+      | cons j0 j' =>
+        simp only [slicesL, hp', Bool.false_eq_true, if_false, Option.map_eq_some_iff] at h
+        obtain ⟨sl', h1, rfl⟩ := h
+        intro x hx
+        simp only [sliceShape, List.map_cons, List.mem_cons] at hx
+        rcases hx with rfl | hx
+        · simp
+        · exact ih (i+1) _ sl' h1 hpos.2 x hx
+
+theorem slicesL_box (p : Nat → Bool) (keep : Bool) :
+    ∀ (s : Shape) (i : Nat) (j : Idx), Pos s → InShape j (removeDimsLoop p keep i s) →
+      ∃ sl, slicesL p keep i j s = some sl ∧ Pos (sliceShape sl) ∧
+        boxIdx sl = (allIdx s).filter (fun x => projL p keep i x == j) := by
+  intro s i j hs hj
+  obtain ⟨sl, h1, h3⟩ := slicesL_box_all p keep s i j hj
+  exact ⟨sl, h1, slicesL_pos p keep s i j sl h1 (PosOn_of_pos p s i hs), h3⟩
 
 
 /-! ### axis normalisation -/
@@ -351,6 +433,12 @@ theorem slicedReads_eq_box (sl : List (Nat × Nat)) (h : Pos (sliceShape sl)) : 
   rw [← map_sliceIndex_allIdx, ← map_ndindex_range _ h, List.map_map]
   rfl
 
+/-- … for any slices (both sides empty when a range is empty) -/
+theorem slicedReads_eq_box_all (sl : List (Nat × Nat)) : slicedReads sl = boxIdx sl := by
+  unfold slicedReads
+  rw [← map_sliceIndex_allIdx, ← map_ndindex_range_all, List.map_map]
+  rfl
+
 /-! ### accumulate -/
 
 /-- list-consuming form of `accumulateSlices` -/
@@ -494,21 +582,29 @@ theorem removeDims_eq_spec (s : Shape) (axis : AxisArg) (keep : Bool) (hv : Vali
       simp only [Bool.false_eq_true, if_false, List.length_map] at hl ⊢
       rw [if_pos ⟨by omega, by omega⟩]
 
-theorem reduceElem_eq_reads {α : Type} (op : α → α → α) (init : Option α) (a : Arr α) (axis : AxisArg)
+theorem reduceElemId_eq_reads {α : Type} (ident : Option α) (op : α → α → α) (init : Option α) (a : Arr α) (axis : AxisArg)
     (keep : Bool) (d : Idx) :
-    reduceElem op init a axis keep d =
-      (reduceReads a.shape axis keep d).bind (fun r => foldFirst op init (r.map a.get)) := by
+    reduceElemId ident op init a axis keep d =
+      (reduceReads a.shape axis keep d).bind (fun r => foldNumpy ident op init (r.map a.get)) := by
   cases axis with
-  | none => simp [reduceElem, reduceReads, reducer_eq_foldFirst, List.map_map, Function.comp_def]
+  | none => simp [reduceElemId, reduceReads, flattenReduce_eq, List.map_map, Function.comp_def]
   | some l =>
-    simp only [reduceElem, reduceReads]
+    simp only [reduceElemId, reduceReads]
     cases reductionSlices d a.shape (some l) keep with
     | none => rfl
     | some sl =>
       have hf : slicedFlatElem a sl = fun x => a.get (sliceIndex sl (ndindex (sliceShape sl) x)) := rfl
-      simp [reducer_eq_foldFirst, slicedReads, hf, List.map_map, Function.comp_def]
+      simp [flattenReduce_eq, slicedReads, hf, List.map_map, Function.comp_def]
 
-theorem reduceReads_eq_addressed (s : Shape) (hs : Pos s) (axis : AxisArg) (keep : Bool)
+theorem reduceElem_eq_reads {α : Type} (op : α → α → α) (init : Option α) (a : Arr α) (axis : AxisArg)
+    (keep : Bool) (d : Idx) :
+    reduceElem op init a axis keep d =
+      (reduceReads a.shape axis keep d).bind (fun r => foldNumpy none op init (r.map a.get)) :=
+  reduceElemId_eq_reads none op init a axis keep d
+
+/-- any shape — zero extents allowed — and any accepted axis argument: the view reads exactly the addressed indices
+    (none at all when a reduced axis has extent 0) -/
+theorem reduceReads_eq_addressed_all (s : Shape) (axis : AxisArg) (keep : Bool)
     (hv : ValidAxes s.length axis) (j : Idx) (hj : InShape j (specShape s (axisSet s.length axis) keep)) :
     reduceReads s axis keep j = some (addressed s (axisSet s.length axis) keep j) := by
   cases axis with
@@ -516,7 +612,7 @@ theorem reduceReads_eq_addressed (s : Shape) (hs : Pos s) (axis : AxisArg) (keep
     have hp : ∀ k, k < s.length → inAxis none k = decide (k ∈ List.range s.length) := by
       intro k hk; simp [inAxis, hk]
     simp only [reduceReads, addressed, axisSet] at *
-    rw [map_ndindex_range s hs]
+    rw [map_ndindex_range_all s]
     congr 1
     symm
     rw [List.filter_eq_self]
@@ -531,25 +627,30 @@ theorem reduceReads_eq_addressed (s : Shape) (hs : Pos s) (axis : AxisArg) (keep
       fun k _ => inAxis_some _ k
     simp only [axisSet] at hj ⊢
     rw [specShape_eq_loop _ _ keep s hp] at hj
-    obtain ⟨sl, h1, h2, h3⟩ := slicesL_box _ keep s 0 j hs hj
+    obtain ⟨sl, h1, h3⟩ := slicesL_box_all _ keep s 0 j hj
     simp only [reduceReads, reductionSlices, unwrapAxes, normalizeAxes_eq, if_pos hval, Option.map_some,
-      reductionSlicesLoop_eq, List.drop_zero, h1, slicedReads_eq_box sl h2, h3, addressed]
+      reductionSlicesLoop_eq, List.drop_zero, h1, slicedReads_eq_box_all sl, h3, addressed]
     congr 1
     apply List.filter_congr
     intro x hx
     rw [proj_eq_loop _ _ keep x s.length (mem_allIdx_length hx) hp]
 
+theorem reduceReads_eq_addressed (s : Shape) (_hs : Pos s) (axis : AxisArg) (keep : Bool)
+    (hv : ValidAxes s.length axis) (j : Idx) (hj : InShape j (specShape s (axisSet s.length axis) keep)) :
+    reduceReads s axis keep j = some (addressed s (axisSet s.length axis) keep j) :=
+  reduceReads_eq_addressed_all s axis keep hv j hj
+
 /-! ### accumulate, assembled -/
 
 theorem accumulateElem_eq_reads {α : Type} (op : α → α → α) (a : Arr α) (axis : Int) (d : Idx) :
     accumulateElem op a axis d =
-      (accumulateReads a.shape axis d).bind (fun r => foldFirst op none (r.map a.get)) := by
+      (accumulateReads a.shape axis d).bind (fun r => foldNumpy none op none (r.map a.get)) := by
   simp only [accumulateElem, accumulateReads]
   cases accumulateSlices (accumulateAxis a.shape.length axis) d 0 a.shape with
   | none => rfl
   | some sl =>
     have hf : slicedFlatElem a sl = fun x => a.get (sliceIndex sl (ndindex (sliceShape sl) x)) := rfl
-    simp [reducer_eq_foldFirst, slicedReads, hf, List.map_map, Function.comp_def]
+    simp [flattenReduce_eq, slicedReads, hf, List.map_map, Function.comp_def]
 
 /-- the code's normalisation of the accumulate axis agrees with NumPy's on every accepted axis -/
 theorem accumulateAxis_of_valid {n : Nat} {a : Int} (h : ValidAxis n a) :
@@ -594,6 +695,144 @@ theorem reduceReads_ne_nil (s : Shape) (hs : Pos s) (axis : AxisArg) (keep : Boo
     · apply List.ne_nil_of_length_pos
       simp only [slicedReads, List.length_map, List.length_range]
       exact prod_pos h2
+
+theorem addressed_ne_nil (s : Shape) (hs : Pos s) (axis : AxisArg) (keep : Bool)
+    (hv : ValidAxes s.length axis) (j : Idx) (hj : InShape j (specShape s (axisSet s.length axis) keep)) :
+    addressed s (axisSet s.length axis) keep j ≠ [] := by
+  obtain ⟨r, hr, hne⟩ := reduceReads_ne_nil s hs axis keep hv j hj
+  rw [reduceReads_eq_addressed s hs axis keep hv j hj, Option.some.injEq] at hr
+  rw [hr]; exact hne
+
+/-! ### a duplicate-free list with the same members -/
+
+def dedupNat : List Nat → List Nat
+  | [] => []
+  | x :: xs => if x ∈ xs then dedupNat xs else x :: dedupNat xs
+
+theorem mem_dedupNat (k : Nat) : ∀ (l : List Nat), k ∈ dedupNat l ↔ k ∈ l := by
+  intro l
+  induction l with
+  | nil => simp [dedupNat]
+  | cons x xs ih =>
+    simp only [dedupNat]
+    by_cases hx : x ∈ xs
+    · rw [if_pos hx, ih, List.mem_cons]
+      constructor
+      · exact Or.inr
+      · rintro (rfl | h)
+        · exact hx
+        · exact h
+    · rw [if_neg hx, List.mem_cons, List.mem_cons, ih]
+
+theorem nodup_dedupNat : ∀ (l : List Nat), (dedupNat l).Nodup := by
+  intro l
+  induction l with
+  | nil => simp [dedupNat]
+  | cons x xs ih =>
+    simp only [dedupNat]
+    by_cases hx : x ∈ xs
+    · rw [if_pos hx]; exact ih
+    · rw [if_neg hx, List.nodup_cons]
+      exact ⟨fun h => hx ((mem_dedupNat x xs).1 h), ih⟩
+
+/-! ### shapes with zero extents -/
+
+theorem PosOn_of_getElem (p : Nat → Bool) :
+    ∀ (t : Shape) (i : Nat), (∀ k e, p (i + k) = true → t[k]? = some e → 0 < e) → PosOn p i t := by
+  intro t
+  induction t with
+  | nil => intro _ _; trivial
+  | cons a t ih =>
+    intro i h
+    refine ⟨fun hp => h 0 a (by simpa using hp) (by simp), ih (i+1) ?_⟩
+    intro k e hp he
+    exact h (k+1) e (by rw [← hp]; congr 1; omega) (by simpa using he)
+
+theorem posAxes_none_iff (s : Shape) : PosAxes s (List.range s.length) ↔ Pos s := by
+  constructor
+  · intro h x hx
+    obtain ⟨k, hk, rfl⟩ := List.getElem_of_mem hx
+    exact h k (List.mem_range.2 hk) _ (List.getElem?_eq_getElem hk)
+  · intro h k _ e he
+    exact h e (List.mem_of_getElem? he)
+
+theorem posAxes_of_pos {s : Shape} (h : Pos s) (R : List Nat) : PosAxes s R :=
+  fun _ _ e he => h e (List.mem_of_getElem? he)
+
+/-- reduced extents positive ⇒ something is folded -/
+theorem reduceReads_ne_nil_posAxes (s : Shape) (axis : AxisArg) (keep : Bool)
+    (hv : ValidAxes s.length axis) (hR : PosAxes s (axisSet s.length axis)) (j : Idx)
+    (hj : InShape j (specShape s (axisSet s.length axis) keep)) :
+    ∃ r, reduceReads s axis keep j = some r ∧ r ≠ [] := by
+  cases axis with
+  | none =>
+    refine ⟨_, rfl, ?_⟩
+    apply List.ne_nil_of_length_pos
+    simp only [List.length_map, List.length_range]
+    exact prod_pos ((posAxes_none_iff s).1 hR)
+  | some l =>
+    obtain ⟨hval, hnd⟩ := hv
+    have hp : ∀ k, k < s.length → inAxis (some (l.map (normAxis s.length))) k = decide (k ∈ l.map (normAxis s.length)) :=
+      fun k _ => inAxis_some _ k
+    simp only [axisSet] at hj hR
+    rw [specShape_eq_loop _ _ keep s hp] at hj
+    obtain ⟨sl, h1, _⟩ := slicesL_box_all _ keep s 0 j hj
+    have hpos : PosOn (inAxis (some (l.map (normAxis s.length)))) 0 s := by
+      apply PosOn_of_getElem
+      intro k e hk he
+      rw [Nat.zero_add, inAxis_some] at hk
+      exact hR k (by simpa using hk) e he
+    have h2 := slicesL_pos _ keep s 0 j sl h1 hpos
+    refine ⟨slicedReads sl, ?_, ?_⟩
+    · simp only [reduceReads, reductionSlices, unwrapAxes, normalizeAxes_eq, if_pos hval, Option.map_some,
+        reductionSlicesLoop_eq, List.drop_zero, h1]
+    · apply List.ne_nil_of_length_pos
+      simp only [slicedReads, List.length_map, List.length_range]
+      exact prod_pos h2
+
+theorem addressed_ne_nil_posAxes (s : Shape) (axis : AxisArg) (keep : Bool)
+    (hv : ValidAxes s.length axis) (hR : PosAxes s (axisSet s.length axis)) (j : Idx)
+    (hj : InShape j (specShape s (axisSet s.length axis) keep)) :
+    addressed s (axisSet s.length axis) keep j ≠ [] := by
+  obtain ⟨r, hr, hne⟩ := reduceReads_ne_nil_posAxes s axis keep hv hR j hj
+  rw [reduceReads_eq_addressed_all s axis keep hv j hj, Option.some.injEq] at hr
+  rw [hr]; exact hne
+
+/-- model = NumPy per element for EVERY shape (extents 0 included), given the identity the functor declares -/
+theorem reduceElemId_eq_spec {α : Type} (ident : Option α) (op : α → α → α) (init : Option α) (a : Arr α) (axis : AxisArg)
+    (keep : Bool) (hv : ValidAxes a.shape.length axis) (j : Idx)
+    (hj : InShape j (specShape a.shape (axisSet a.shape.length axis) keep)) :
+    reduceElemId ident op init a axis keep j = specReduceElemId ident op init a (axisSet a.shape.length axis) keep j := by
+  rw [reduceElemId_eq_reads, reduceReads_eq_addressed_all a.shape axis keep hv j hj]
+  rfl
+
+/-- model = spec per element, for every shape whose reduced extents are positive -/
+theorem reduceElem_eq_spec_posAxes {α : Type} (op : α → α → α) (init : Option α) (a : Arr α) (axis : AxisArg)
+    (keep : Bool) (hv : ValidAxes a.shape.length axis) (hR : PosAxes a.shape (axisSet a.shape.length axis)) (j : Idx)
+    (hj : InShape j (specShape a.shape (axisSet a.shape.length axis) keep)) :
+    reduceElem op init a axis keep j = specReduceElem op init a (axisSet a.shape.length axis) keep j := by
+  have hne : (addressed a.shape (axisSet a.shape.length axis) keep j).map a.get ≠ [] := by
+    simpa using addressed_ne_nil_posAxes a.shape axis keep hv hR j hj
+  rw [reduceElem_eq_reads, reduceReads_eq_addressed_all a.shape axis keep hv j hj]
+  simp only [Option.bind_some, foldNumpy_of_ne_nil none op init hne]
+  rfl
+
+/-- … whatever identity the functor declares -/
+theorem reduceElemId_eq_spec_posAxes {α : Type} (ident : Option α) (op : α → α → α) (init : Option α) (a : Arr α)
+    (axis : AxisArg) (keep : Bool) (hv : ValidAxes a.shape.length axis)
+    (hR : PosAxes a.shape (axisSet a.shape.length axis)) (j : Idx)
+    (hj : InShape j (specShape a.shape (axisSet a.shape.length axis) keep)) :
+    reduceElemId ident op init a axis keep j = specReduceElem op init a (axisSet a.shape.length axis) keep j := by
+  have hne : (addressed a.shape (axisSet a.shape.length axis) keep j).map a.get ≠ [] := by
+    simpa using addressed_ne_nil_posAxes a.shape axis keep hv hR j hj
+  rw [reduceElemId_eq_spec ident op init a axis keep hv j hj, specReduceElemId, foldNumpy_of_ne_nil ident op init hne]
+  rfl
+
+/-- a reduced axis of extent 0 ⇒ nothing is addressed -/
+theorem addressed_eq_nil_of_zero_axis (s : Shape) (R : List Nat) (keep : Bool) (j : Idx)
+    (h : ¬ PosAxes s R) : addressed s R keep j = [] := by
+  have hs : ¬ Pos s := fun hp => h (posAxes_of_pos hp R)
+  simp [addressed, allIdx_eq_nil_of_not_pos hs]
 
 theorem inShape_set_le : ∀ (s : Shape) (d : Idx) (ax m x : Nat), InShape d s → d[ax]? = some m → x ≤ m →
     InShape (d.set ax x) s := by
@@ -700,17 +939,17 @@ theorem meanDivisor_eq_prodSel (S : Shape) (R : List Nat) (hnd : R.Nodup) (hlt :
   rw [meanDivisor_some, (perm_filter_range R S.length hnd hlt).foldl_eq' (fun x _ y _ z => divStep_comm S z x y)]
   rw [foldl_divStep_filter S _ S 0 1 (by intro r _; simp), Nat.one_mul]
 
-theorem addressed_length (s : Shape) (hs : Pos s) (l : List Int) (keep : Bool)
+theorem addressed_length_all (s : Shape) (l : List Int) (keep : Bool)
     (hv : ValidAxes s.length (some l)) (j : Idx) (hj : InShape j (specShape s (axisSet s.length (some l)) keep)) :
     (addressed s (axisSet s.length (some l)) keep j).length =
       prodSel (fun k => decide (k ∈ axisSet s.length (some l))) 0 s := by
-  have hr := reduceReads_eq_addressed s hs (some l) keep hv j hj
+  have hr := reduceReads_eq_addressed_all s (some l) keep hv j hj
   obtain ⟨hval, hnd⟩ := hv
   have hp : ∀ k, k < s.length → inAxis (some (l.map (normAxis s.length))) k = decide (k ∈ l.map (normAxis s.length)) :=
     fun k _ => inAxis_some _ k
   simp only [axisSet] at hj hr ⊢
   rw [specShape_eq_loop _ _ keep s hp] at hj
-  obtain ⟨sl, h1, h2, _⟩ := slicesL_box _ keep s 0 j hs hj
+  obtain ⟨sl, h1, _⟩ := slicesL_box_all _ keep s 0 j hj
   simp only [reduceReads, reductionSlices, unwrapAxes, normalizeAxes_eq, if_pos hval, Option.map_some,
     reductionSlicesLoop_eq, List.drop_zero, h1, Option.some.injEq] at hr
   rw [← hr]
@@ -719,6 +958,12 @@ theorem addressed_length (s : Shape) (hs : Pos s) (l : List Int) (keep : Bool)
   congr 1
   funext k
   exact inAxis_some _ k
+
+theorem addressed_length (s : Shape) (_hs : Pos s) (l : List Int) (keep : Bool)
+    (hv : ValidAxes s.length (some l)) (j : Idx) (hj : InShape j (specShape s (axisSet s.length (some l)) keep)) :
+    (addressed s (axisSet s.length (some l)) keep j).length =
+      prodSel (fun k => decide (k ∈ axisSet s.length (some l))) 0 s :=
+  addressed_length_all s l keep hv j hj
 
 theorem prodSel_all (s : Shape) (i : Nat) (p : Nat → Bool) (h : ∀ k, i ≤ k → k < i + s.length → p k = true) :
     prodSel p i s = prod s := by
@@ -816,7 +1061,7 @@ theorem foldFirst_none_cons {α : Type} (f : α → α → α) (l : List α) (h 
 
 /-- facts about an accepted axis argument used by mean / var: the normalised axis list is accepted again, names the
     same axis set, and `mean_divisor` is the number of elements folded into any result element -/
-theorem unwrapAxes_valid (s : Shape) (hs : Pos s) (axis : AxisArg) (hv : ValidAxes s.length axis) :
+theorem unwrapAxes_valid_all (s : Shape) (axis : AxisArg) (hv : ValidAxes s.length axis) :
     ∃ ax N, unwrapAxes s.length axis = some ax ∧
       ValidAxes s.length (ax.map (fun l => l.map Int.ofNat)) ∧
       axisSet s.length (ax.map (fun l => l.map Int.ofNat)) = axisSet s.length axis ∧
@@ -827,7 +1072,7 @@ theorem unwrapAxes_valid (s : Shape) (hs : Pos s) (axis : AxisArg) (hv : ValidAx
   | none =>
     refine ⟨none, prod s, rfl, hv, rfl, rfl, ?_⟩
     intro keep j hj
-    have hr := reduceReads_eq_addressed s hs none keep hv j hj
+    have hr := reduceReads_eq_addressed_all s none keep hv j hj
     simp only [reduceReads, Option.some.injEq] at hr
     rw [← hr]; simp
   | some l =>
@@ -841,7 +1086,36 @@ theorem unwrapAxes_valid (s : Shape) (hs : Pos s) (axis : AxisArg) (hv : ValidAx
     refine ⟨some (l.map (normAxis s.length)), _, ?_, hv', hset, meanDivisor_eq_prodSel s _ hv.2 hlt, ?_⟩
     · simp only [unwrapAxes, normalizeAxes_eq, if_pos hval, Option.map_some]
     · intro keep j hj
-      exact addressed_length s hs l keep hv j hj
+      exact addressed_length_all s l keep hv j hj
+
+theorem unwrapAxes_valid (s : Shape) (_hs : Pos s) (axis : AxisArg) (hv : ValidAxes s.length axis) :
+    ∃ ax N, unwrapAxes s.length axis = some ax ∧
+      ValidAxes s.length (ax.map (fun l => l.map Int.ofNat)) ∧
+      axisSet s.length (ax.map (fun l => l.map Int.ofNat)) = axisSet s.length axis ∧
+      meanDivisor s ax = some N ∧
+      ∀ keep j, InShape j (specShape s (axisSet s.length axis) keep) →
+        (addressed s (axisSet s.length axis) keep j).length = N :=
+  unwrapAxes_valid_all s axis hv
+
+/-- `mean` on accepted arguments, reduced extents positive (kept extents arbitrary): shape and elements -/
+theorem mean_spec_posAxes {α : Type} (add : α → α → α) (divn : α → Nat → α) (a : Arr α) (axis : AxisArg) (keep : Bool)
+    (hv : ValidAxes a.shape.length axis) (hR : PosAxes a.shape (axisSet a.shape.length axis)) :
+    ∃ v, mean add divn a axis keep = some v ∧ v.shape = specShape a.shape (axisSet a.shape.length axis) keep ∧
+      ∀ j, InShape j v.shape →
+        v.get j = (foldFirst add none ((addressed a.shape (axisSet a.shape.length axis) keep j).map a.get)).map
+                    (fun x => divn x (addressed a.shape (axisSet a.shape.length axis) keep j).length) := by
+  obtain ⟨ax, N, h1, h2, h3, h4, h5⟩ := unwrapAxes_valid_all a.shape axis hv
+  refine ⟨⟨specShape a.shape (axisSet a.shape.length axis) keep, fun j =>
+    (reduceElem add none a (ax.map (fun l => l.map Int.ofNat)) keep j).map (fun x => divn x N)⟩, ?_, rfl, ?_⟩
+  · simp only [mean, h1, h4, reduce, reduceId, reduceElem, removeDims_eq_spec a.shape _ keep h2, h3, Option.map_some]
+  · intro j hj
+    have hj' : InShape j (specShape a.shape (axisSet a.shape.length (ax.map (fun l => l.map Int.ofNat))) keep) := by
+      rw [h3]; exact hj
+    show (reduceElem add none a (ax.map (fun l => l.map Int.ofNat)) keep j).map (fun x => divn x N) = _
+    have hne : (addressed a.shape (axisSet a.shape.length axis) keep j).map a.get ≠ [] := by
+      simpa using addressed_ne_nil_posAxes a.shape axis keep hv hR j hj
+    rw [reduceElem_eq_reads, reduceReads_eq_addressed_all a.shape _ keep h2 j hj', h3, h5 keep j hj]
+    simp only [Option.bind_some, foldNumpy_of_ne_nil none add none hne]
 
 /-- `mean` on accepted arguments: shape and elements -/
 theorem mean_spec {α : Type} (add : α → α → α) (divn : α → Nat → α) (a : Arr α) (axis : AxisArg) (keep : Bool)
@@ -849,17 +1123,8 @@ theorem mean_spec {α : Type} (add : α → α → α) (divn : α → Nat → α
     ∃ v, mean add divn a axis keep = some v ∧ v.shape = specShape a.shape (axisSet a.shape.length axis) keep ∧
       ∀ j, InShape j v.shape →
         v.get j = (foldFirst add none ((addressed a.shape (axisSet a.shape.length axis) keep j).map a.get)).map
-                    (fun x => divn x (addressed a.shape (axisSet a.shape.length axis) keep j).length) := by
-  obtain ⟨ax, N, h1, h2, h3, h4, h5⟩ := unwrapAxes_valid a.shape hs axis hv
-  refine ⟨⟨specShape a.shape (axisSet a.shape.length axis) keep, fun j =>
-    (reduceElem add none a (ax.map (fun l => l.map Int.ofNat)) keep j).map (fun x => divn x N)⟩, ?_, rfl, ?_⟩
-  · simp only [mean, h1, h4, reduce, removeDims_eq_spec a.shape _ keep h2, h3, Option.map_some]
-  · intro j hj
-    have hj' : InShape j (specShape a.shape (axisSet a.shape.length (ax.map (fun l => l.map Int.ofNat))) keep) := by
-      rw [h3]; exact hj
-    show (reduceElem add none a (ax.map (fun l => l.map Int.ofNat)) keep j).map (fun x => divn x N) = _
-    rw [reduceElem_eq_reads, reduceReads_eq_addressed a.shape hs _ keep h2 j hj', h3, h5 keep j hj]
-    rfl
+                    (fun x => divn x (addressed a.shape (axisSet a.shape.length axis) keep j).length) :=
+  mean_spec_posAxes add divn a axis keep hv (posAxes_of_pos hs _)
 
 
 /-- for a source index `i` of the group of `j`, the keepdims group of `i` is the group of `j` -/
@@ -892,29 +1157,30 @@ theorem proj_true_inShape (s : Shape) (R : List Nat) (i : Idx) (hi : InShape i s
   rw [proj_eq_loop _ R true i s.length hi.length_eq hp, specShape_eq_loop _ R true s hp]
   exact projL_inShape _ s 0 i hi
 
-theorem var_spec {α : Type} (add sub : α → α → α) (sqabs : α → α) (divn : α → Nat → α) (a : Arr α)
-    (axis : AxisArg) (ddof : Nat) (keep : Bool) (hs : Pos a.shape) (hv : ValidAxes a.shape.length axis) :
+theorem var_spec_posAxes {α : Type} (add sub : α → α → α) (sqabs : α → α) (divn : α → Nat → α) (a : Arr α)
+    (axis : AxisArg) (ddof : Nat) (keep : Bool) (hv : ValidAxes a.shape.length axis)
+    (hR : PosAxes a.shape (axisSet a.shape.length axis)) :
     ∃ v, var add sub sqabs divn a axis ddof keep = some v ∧
       v.shape = specShape a.shape (axisSet a.shape.length axis) keep ∧
       ∀ j, InShape j v.shape →
         v.get j = specVarElem add sub sqabs divn a (axisSet a.shape.length axis) keep ddof j := by
-  obtain ⟨ax, N, h1, h2, h3, h4, h5⟩ := unwrapAxes_valid a.shape hs axis hv
-  obtain ⟨m, hm1, hm2, hm3⟩ := mean_spec add divn a (ax.map (fun l => l.map Int.ofNat)) true hs h2
+  obtain ⟨ax, N, h1, h2, h3, h4, h5⟩ := unwrapAxes_valid_all a.shape axis hv
+  obtain ⟨m, hm1, hm2, hm3⟩ := mean_spec_posAxes add divn a (ax.map (fun l => l.map Int.ofNat)) true h2 (by rw [h3]; exact hR)
   rw [h3] at hm2 hm3
   refine ⟨⟨specShape a.shape (axisSet a.shape.length axis) keep, fun j =>
     ((reduceElem (optOp add) none
       (⟨a.shape, fun i => (m.get (proj (axisSet a.shape.length axis) true i)).map
           (fun mu => sqabs (sub (a.get i) mu))⟩ : Arr (Option α))
       (ax.map (fun l => l.map Int.ofNat)) keep j).join).map (fun x => divn x (N - ddof))⟩, ?_, rfl, ?_⟩
-  · simp only [var, h1, hm1, h4, h3, reduce]
+  · simp only [var, h1, hm1, h4, h3, reduce, reduceId, reduceElem]
     rw [removeDims_eq_spec a.shape _ keep h2, h3]
     rfl
   · intro j hj
     have hj' : InShape j (specShape a.shape (axisSet a.shape.length (ax.map (fun l => l.map Int.ofNat))) keep) := by
       rw [h3]; exact hj
     -- the group of j
-    obtain ⟨r, hr, hne⟩ := reduceReads_ne_nil a.shape hs axis keep hv j hj
-    rw [reduceReads_eq_addressed a.shape hs axis keep hv j hj, Option.some.injEq] at hr
+    obtain ⟨r, hr, hne⟩ := reduceReads_ne_nil_posAxes a.shape axis keep hv hR j hj
+    rw [reduceReads_eq_addressed_all a.shape axis keep hv j hj, Option.some.injEq] at hr
     obtain ⟨S, hS⟩ := foldFirst_none_cons add ((addressed a.shape (axisSet a.shape.length axis) keep j).map a.get)
       (by rw [hr]; simpa using hne)
     have hlen := h5 keep j hj
@@ -928,9 +1194,17 @@ theorem var_spec {α : Type} (add sub : α → α → α) (sqabs : α → α) (d
           addressed_true_proj a.shape _ keep j i hi, hS, hlen]
       rfl
     show ((reduceElem (optOp add) none _ (ax.map (fun l => l.map Int.ofNat)) keep j).join).map _ = _
-    rw [reduceElem_eq_reads, reduceReads_eq_addressed a.shape hs _ keep h2 j hj', h3]
+    rw [reduceElem_eq_reads, reduceReads_eq_addressed_all a.shape _ keep h2 j hj', h3]
     simp only [Option.bind_some]
-    rw [List.map_congr_left hd, foldFirst_optOp_some]
+    rw [List.map_congr_left hd, foldNumpy_of_ne_nil _ _ _ (by rw [hr]; simpa using hne), foldFirst_optOp_some]
     simp only [specVarElem, hS, Option.bind_some, hlen]
+
+theorem var_spec {α : Type} (add sub : α → α → α) (sqabs : α → α) (divn : α → Nat → α) (a : Arr α)
+    (axis : AxisArg) (ddof : Nat) (keep : Bool) (hs : Pos a.shape) (hv : ValidAxes a.shape.length axis) :
+    ∃ v, var add sub sqabs divn a axis ddof keep = some v ∧
+      v.shape = specShape a.shape (axisSet a.shape.length axis) keep ∧
+      ∀ j, InShape j v.shape →
+        v.get j = specVarElem add sub sqabs divn a (axisSet a.shape.length axis) keep ddof j :=
+  var_spec_posAxes add sub sqabs divn a axis ddof keep hv (posAxes_of_pos hs _)
 
 end NmVerif.Reduce
